@@ -52,6 +52,7 @@ type Engine struct {
 	axioms     map[string][]Clause // package path -> global invariants assumed at function entry
 	onStore    map[string]string   // "<comp>.<field accessor>" -> ghost set receiving the stored pointer
 	stateInvs  []predApp           // invariants of the instrumented semantics, assumed in every state
+	allocFacts map[string][2]string // comp -> (predicate, region): see ;@allocfact
 	storeFacts map[string]predApp  // comp -> fact asserted after a store into an object of that comp
 	ghostByValue  map[string]bool
 	named         map[string]string
@@ -391,6 +392,13 @@ func (e *Engine) loadSpecSMT(path string) error {
 			}
 		case "stateinv":
 			e.stateInvs = append(e.stateInvs, predApp{Pred: fs[1], Args: fs[2:]})
+		case "allocfact":
+			// ;@allocfact <comp> <pred> <region>: after a write that only initialises a fresh
+			// object of <comp>, pred(region before, region after, na before) holds
+			if e.allocFacts == nil {
+				e.allocFacts = map[string][2]string{}
+			}
+			e.allocFacts[fs[1]] = [2]string{fs[2], fs[3]}
 		case "storefact":
 			t := e.lookupType(fs[1], nil)
 			if t == nil {
@@ -851,13 +859,17 @@ func (e *Engine) verifyFuncMode(fn *ssa.Function, ct *Contract, sweep bool, prop
 	}
 	if !sweep && !errflow {
 		for _, c := range ct.Callsites {
-			if x.nameCount[fmt.Sprintf("callsite-hit:%d", c.Line)] == 0 {
-				e.specErrs = append(e.specErrs, fmt.Sprintf("%s:%d: callsite clause matches no call in %s", c.File, c.Line, fn.String()))
-				continue
-			}
 			lbl := c.Label
 			if lbl == "" {
 				lbl = fmt.Sprintf("L%d", c.Line)
+			}
+			if x.nameCount[fmt.Sprintf("callsite-hit:%d", c.Line)] == 0 {
+				// the call the clause speaks about is not in the body (any more): the clause's
+				// obligation cannot be discharged — on the unchanged tree this shows up as a
+				// never-claimed obligation (a mistake in the contract), after a change as a violation
+				x.note("callsite clause matches no call: " + c.Target + " [" + lbl + "]")
+				x.obligeCasesIdx("callsite", lbl, []oblCase{{Guard: "true", Goal: "false", Idx: 0}}, "call-site condition of "+c.Target+": the call is missing", fn.Pos(), true)
+				continue
 			}
 			x.obligeCasesIdx("callsite", lbl, x.csCases[c.Line], "call-site condition of "+c.Target+": "+c.Text, fn.Pos(), true)
 		}
